@@ -237,7 +237,49 @@ func (c *vCtl) point(t *vThr, reason string) {
 	c.handover(t, to, true)
 }
 
+// watchdog: a controlled goroutine that holds the baton but is blocked inside a
+// real (unshimmed) operation cannot report it; when the recorded schedule says
+// that the baton holder blocks next and nothing has moved for a while, the
+// hand-over is performed on its behalf.
+func (c *vCtl) watchdog(stop chan struct{}) {
+	for {
+		select {
+		case <-stop:
+			return
+		case <-time.After(2 * time.Millisecond):
+		}
+		c.mu.Lock()
+		s := c.head()
+		if s != nil && s.Reason == "block" && s.From == c.cur && time.Since(c.lastAct) > 25*time.Millisecond {
+			c.pos++
+			to := s.To
+			c.cur = to
+			c.lastAct = time.Now()
+			var target *vThr
+			if to >= 0 && to < len(c.thr) {
+				target = c.thr[to]
+			}
+			c.mu.Unlock()
+			if target != nil && !target.done {
+				select {
+				case target.resume <- struct{}{}:
+				default:
+				}
+			}
+			continue
+		}
+		c.mu.Unlock()
+	}
+}
+
 func (c *vCtl) handover(from *vThr, to int, wait bool) {
+	if from != nil {
+		// a token received while this goroutine was running anyway is stale
+		select {
+		case <-from.resume:
+		default:
+		}
+	}
 	c.mu.Lock()
 	var target *vThr
 	if to >= 0 && to < len(c.thr) {
@@ -360,6 +402,11 @@ func vRunCase(c *vCase, h func()) (out vOutcome) {
 	vS = &vState{c: c, nameCount: map[string]int{}}
 	ctl := &vCtl{byG: map[uint64]*vThr{}, sw: c.Switches, free: len(c.Switches) == 0}
 	vS.ctl = ctl
+	stopWD := make(chan struct{})
+	defer close(stopWD)
+	if !ctl.free {
+		go ctl.watchdog(stopWD)
+	}
 	out.ID = c.ID
 	out.Harness = c.Harness
 	done := make(chan struct{})
